@@ -7,6 +7,30 @@ ROOT = os.path.dirname(os.path.dirname(os.path.abspath(__file__)))
 
 # property id -> (technique, level text, level note, design ref)
 CLAIMED = {
+    "C01": (
+        "stateful PBT: generated op histories, raw GLPK read-back vs public model view after every step",
+        "Exploration: generated histories (whole op table incl. failing ops, copies, merges, solver switches, context "
+        "blocks with faults) with the flux-balance invariant evaluated after every step on the raw GLPK problem; finds "
+        "desynchronisation defects reachable by composition, cannot show absence.",
+        "Trusts swiglpk's glp_get_* read-back and the harness' bookkeeping of explicitly added user constraints/variables.",
+        "DESIGN.md section 4 (C01)",
+    ),
+    "C03": (
+        "stateful PBT: generated context blocks (nesting, faults), snapshot-at-enter == snapshot-after-exit oracle",
+        "Exploration: generated histories with nested with-model blocks containing documented-reversible operations "
+        "and ending normally, by a harness fault or by a raising operation; full observable state (Python view, "
+        "cross-references, raw GLPK) compared between entry and exit.",
+        "Trusts the snapshot/diff code; list order ignored as the statement allows; rel 1e-9 on coefficients.",
+        "DESIGN.md section 4 (C03)",
+    ),
+    "C04": (
+        "PBT against an exact rational LP oracle with verified certificates + harness-computed dual certificate",
+        "Exploration: generated small models incl. infeasible/unbounded ones; status, optimum, feasibility, duals "
+        "(complementary slackness recomputed by the harness), reduced costs, error values/exceptions and Solution "
+        "immutability checked against an exact simplex whose certificates are verified in rational arithmetic.",
+        "Trusts vfw/exactlp.py certificate verification (exact arithmetic) and the 1e-6 relative comparison tolerance.",
+        "DESIGN.md section 4 (C04)",
+    ),
     "C15": (
         "model-based PBT (Hypothesis op sequences vs Python list model) + exhaustive small-scope enumeration",
         "Exploration: generated and exhaustively enumerated operation sequences on DictList, every step audited "
